@@ -284,6 +284,31 @@ fn sweep05(part: usize, parts: usize) -> impl Iterator<Item = Case05> {
             }
         }
     }
+    // conforming conversations whose connect response / licence carry padding of every size that moves the BER, PER,
+    // GCC and TPKT lengths across their encoding boundaries (0x80, 0x100, 0x4000 ...), and SC_NET with many channels
+    for n in (0..300usize).chain(16000..16500).chain([30000]) {
+        let mut p = ServerProfile::simple(1004, 0x000103EA);
+        p.ccrsp.blocks.push(refimpl::gcc::ScBlock::Unknown { typ: 0x0C04, body: vec![0x11; n] });
+        v.push(Case05::Conn { profile: p, fault: Fault { message: 0, kind: FaultKind::Xor(vec![]), kind2: None } });
+        if n < 300 || n % 25 == 0 {
+            let mut p = ServerProfile::simple(1004, 0x000103EA);
+            p.license = wire::License::ValidClient { blob_type: 4, blob: vec![0x22; n.min(60000)] };
+            v.push(Case05::Conn { profile: p, fault: Fault { message: 0, kind: FaultKind::Xor(vec![]), kind2: None } });
+            let mut p = ServerProfile::simple(1004, 0x000103EA);
+            p.license = wire::License::NewLicense { body: vec![0x23; n.min(60000)] };
+            v.push(Case05::Conn { profile: p, fault: Fault { message: 0, kind: FaultKind::Xor(vec![]), kind2: None } });
+        }
+        if n <= 300 {
+            let mut p = ServerProfile::simple(1004, 0x000103EA);
+            for b in p.ccrsp.blocks.iter_mut() {
+                if let refimpl::gcc::ScBlock::Net { ids, pad, .. } = b {
+                    *ids = (0..n as u16).map(|k| 1005 + k).collect();
+                    *pad = n % 2 == 1;
+                }
+            }
+            v.push(Case05::Conn { profile: p, fault: Fault { message: 0, kind: FaultKind::Xor(vec![]), kind2: None } });
+        }
+    }
     // every selected protocol low byte, with and without an authentication protocol
     for sel in 0..256u32 {
         for auth in [false, true] {
@@ -429,6 +454,11 @@ pub enum PduKind {
     RawFrame(Vec<u8>),
     /// several slow-path share PDUs in one MCS send-data-indication
     Batch(Vec<PduKind>),
+    /// a conforming demand-active with one more (unknown) capability set of this many body bytes: PDU, MCS and TPKT
+    /// lengths cross their encoding boundaries (0x80, 0x4000, 0x7FFF)
+    DemandActivePadded(u16),
+    /// an unparsed data PDU (save session info) with a body of this many bytes
+    DataPadded(u16),
 }
 
 /// the share PDU of a slow-path kind (None for fast-path and raw-frame kinds)
@@ -447,6 +477,12 @@ pub fn share_pdu(kind: &PduKind, share: u32) -> Option<Built> {
             x.blob("raw", b);
             x
         }
+        PduKind::DemandActivePadded(n) => {
+            let mut caps = wire::sample_server_caps();
+            caps.push((0x00FE, vec![0x5A; *n as usize]));
+            wire::demand_active(&DemandActive { share_id: share ^ 0x55, source: b"RDP\0".to_vec(), caps, session_id: 7 }, su)
+        }
+        PduKind::DataPadded(n) => wire::other_data_pdu(share, su, 0x26, &vec![0x33; *n as usize]),
         _ => return None,
     })
 }
@@ -527,6 +563,7 @@ pub fn base_frame(kind: &PduKind, share: u32) -> Built {
             x.blob("raw", b);
             x
         }
+        PduKind::DemandActivePadded(_) | PduKind::DataPadded(_) => wrap(&share_pdu(kind, share).unwrap()),
         PduKind::Batch(kinds) => {
             let mut all = Built::new();
             for (i, k) in kinds.iter().enumerate() {
@@ -610,7 +647,7 @@ pub fn run06(c: &Case06) -> Outcome {
             bytes = apply_fault(&b2, k2).0;
         }
     }
-    let differs = bytes != base.bytes || matches!(c.kind, PduKind::RawShare(_) | PduKind::RawFastPath(_) | PduKind::RawFrame(_) | PduKind::Batch(_));
+    let differs = bytes != base.bytes || matches!(c.kind, PduKind::RawShare(_) | PduKind::RawFastPath(_) | PduKind::RawFrame(_) | PduKind::Batch(_) | PduKind::DemandActivePadded(_) | PduKind::DataPadded(_));
     if matches!(c.kind, PduKind::Batch(_)) {
         out.label("batch");
     }
@@ -775,6 +812,11 @@ fn batches06() -> Vec<Case06> {
                 v.push(Case06 { state: st, kind: k.clone(), fault: None, fault2: None, cycles: 0, caps });
             }
         }
+    }
+    // padded PDUs: every size that moves the PDU / MCS / TPKT lengths across 0x80, 0x4000 and towards 0x7FFF
+    for n in (0..200u16).chain(15700..16100).chain(32000..32300) {
+        v.push(Case06 { state: 0, kind: PduKind::DemandActivePadded(n), fault: None, fault2: None, cycles: 0, caps: 0 });
+        v.push(Case06 { state: 5, kind: PduKind::DataPadded(n), fault: None, fault2: None, cycles: 0, caps: 0 });
     }
     for cycles in [255u16, 256, 257, 300] {
         for k in [PduKind::DeactivateAll, PduKind::DemandActive, PduKind::FpBitmap] {
